@@ -142,6 +142,83 @@ theorem decode_bag_nodup (fuel : Nat) (m : List (String × Json)) (pn : Option S
       | (apply BagGood.guard)
       | split
 
+/-! ### SparselyBin: two keys for one bin index -/
+
+theorem insertK_perm (key : Key) (a : Agg) : ∀ l : List (Key × Agg), (insertK key a l).Perm ((key, a) :: l)
+  | [] => List.Perm.refl _
+  | (k, b) :: rest => by
+    unfold insertK
+    split
+    · exact List.Perm.refl _
+    · exact ((insertK_perm key a rest).cons (k, b)).trans (List.Perm.swap _ _ _)
+
+theorem foldl_insertK_perm : ∀ (l acc : List (Key × Agg)),
+    (l.foldl (fun acc p => insertK p.1 p.2 acc) acc).Perm (l.reverse ++ acc)
+  | [], acc => by simp
+  | p :: rest, acc => by
+    rw [List.foldl_cons]
+    refine (foldl_insertK_perm rest (insertK p.1 p.2 acc)).trans ?_
+    rw [List.reverse_cons, List.append_assoc]
+    exact (insertK_perm p.1 p.2 acc).append_left _
+
+/-- `insertK` keeps every pair it is given: the keys of the sorted bins are the parsed keys, up to order -/
+theorem keysOf_foldl_insertK_perm (l : List (Key × Agg)) :
+    (keysOf (l.foldl (fun acc p => insertK p.1 p.2 acc) [])).Perm (l.map (·.1)) := by
+  have h := (foldl_insertK_perm l []).map (·.1)
+  rw [List.append_nil] at h
+  exact h.trans ((List.reverse_perm l).map _)
+
+/-- every result of the option computation `o` has pairwise distinct non-flow keys -/
+def SparseGood (o : Option Agg) : Prop :=
+  ∀ t, o = some t → ((keysOf t.kids).filter (fun k => k != .nanflow)).Nodup
+
+theorem SparseGood.none : SparseGood none := by intro t h; cases h
+theorem SparseGood.bind {α} {o : Option α} {f : α → Option Agg}
+    (hf : ∀ a, o = some a → SparseGood (f a)) : SparseGood (o.bind f) := by
+  intro t h
+  cases o with
+  | none => cases h
+  | some a => exact hf a rfl t h
+
+theorem SparseGood.guard {k e st tmpl n} {bins : List (Key × Agg)} :
+    SparseGood (if (!decide (bins.map (·.1)).Nodup) = true then Option.none
+             else Option.some (.node k e st tmpl
+                    ((.nanflow, n) :: bins.foldl (fun acc p => insertK p.1 p.2 acc) []))) := by
+  intro t h
+  split at h
+  · cases h
+  · rename_i hnd
+    cases h
+    have hnd' : (bins.map (·.1)).Nodup := by simpa using hnd
+    have h2 : (keysOf (bins.foldl (fun acc p => insertK p.1 p.2 acc) [])).Nodup :=
+      (keysOf_foldl_insertK_perm bins).nodup_iff.2 hnd'
+    have h3 : (keysOf ((Key.nanflow, n) :: bins.foldl (fun acc p => insertK p.1 p.2 acc) [])).filter
+        (fun k => k != Key.nanflow) =
+        (keysOf (bins.foldl (fun acc p => insertK p.1 p.2 acc) [])).filter (fun k => k != Key.nanflow) := by
+      simp [keysOf]
+    show ((keysOf ((Key.nanflow, n) :: bins.foldl (fun acc p => insertK p.1 p.2 acc) [])).filter
+        (fun k => k != Key.nanflow)).Nodup
+    rw [h3]
+    exact List.Pairwise.sublist List.filter_sublist h2
+
+/-- a SparselyBin document in which two keys denote the same bin index is rejected: the bins of a loaded
+SparselyBin have pairwise distinct indices -/
+theorem decode_sparse_nodup (fuel : Nat) (m : List (String × Json)) (pn : Option String) (t : Agg)
+    (h : decodeFrag (fuel + 1) "SparselyBin" (.obj m) pn = some t) :
+    ((keysOf t.kids).filter (fun k => k != .nanflow)).Nodup := by
+  unfold decodeFrag at h
+  simp only at h
+  split at h
+  · cases h
+  · revert t
+    show SparseGood _
+    simp only [Option.bind_eq_bind, Option.pure_def]
+    repeat' first
+      | exact SparseGood.none
+      | (apply SparseGood.bind; intro _ _)
+      | (apply SparseGood.guard)
+      | split
+
 /-- the decoded container has the primitive type the document names -/
 theorem decode_typeName (fuel : Nat) (ty : String) (j : Json) (pn : Option String) (t : Agg)
     (h : decodeFrag fuel ty j pn = some t) : t.typeName = ty := by
@@ -193,5 +270,14 @@ theorem decode_header_gate (j : Json) (t : Agg) (h : decode j = some t) :
               ⟨ty, hty, by simpa using hkn, decode_typeName _ _ _ _ _ h⟩⟩
       · cases h
   · cases h
+
+/-! non-vacuity (`decode` goes through `String.split`, which the kernel does not unfold, hence `#guard`):
+the keys "1" and "01" denote the same bin index, the document is rejected; with distinct indices it loads -/
+#guard (decode (.obj [("type", .str "SparselyBin"), ("data", .obj [("binWidth", .num 1), ("entries", .num 2),
+    ("bins:type", .str "Count"), ("bins", .obj [("1", .num 1), ("01", .num 1)]),
+    ("nanflow:type", .str "Count"), ("nanflow", .num 0), ("origin", .num 0)]), ("version", .str "1.1")])).isNone
+#guard (decode (.obj [("type", .str "SparselyBin"), ("data", .obj [("binWidth", .num 1), ("entries", .num 2),
+    ("bins:type", .str "Count"), ("bins", .obj [("1", .num 1), ("02", .num 1)]),
+    ("nanflow:type", .str "Count"), ("nanflow", .num 0), ("origin", .num 0)]), ("version", .str "1.1")])).isSome
 
 end Hg
